@@ -26,6 +26,7 @@ fn sweep_cases(tier: Tier) -> &'static Vec<Case> {
     let build = move || {
         let mut out = vec![];
         let mut seen_neg = std::collections::HashSet::new();
+        let mut seen_pike = std::collections::HashSet::new();
         for (name, id) in names_sorted() {
             for f in ["u", "v"] {
                 out.push(mk(&format!("\\p{{{}}}", name), f, json!({"kind": "sweep", "set": id})));
@@ -33,6 +34,10 @@ fn sweep_cases(tier: Tier) -> &'static Vec<Case> {
                 if tier == Tier::Thorough || seen_neg.insert((id, f)) {
                     out.push(mk(&format!("\\P{{{}}}", name), f, json!({"kind": "sweep", "set": id, "neg": true})));
                 }
+            }
+            // the PikeVM once per distinct set in the quick tier, for every name in the thorough tier
+            if tier == Tier::Quick && seen_pike.insert(id) {
+                out.push(mk(&format!("\\p{{{}}}", name), "u", json!({"kind": "sweep", "set": id, "pike": true})));
             }
             if tier == Tier::Thorough {
                 out.push(mk(&format!("\\p{{{}}}", name), "u", json!({"kind": "sweep", "set": id, "pike": true})));
@@ -331,7 +336,7 @@ pub fn run(ctx: &Ctx) -> i32 {
     ctx.agg.lock().unwrap().exhaustive = true;
     ctx.finish(
         "exploration",
-        "EXHAUSTIVE: for every property expression ECMAScript admits (1714 spellings of 367 distinct sets: binary properties, General_Category incl. bare values, Script, Script_Extensions, every alias), /(?:\\p{X})+/ under u and under v is run over a haystack holding all 1,112,064 scalar values and the matched set must equal the Unicode 17 set (oracle: V8/ICU 78 export in /verif/oracle, cross-checked against regex-syntax and std); \\P once per distinct set and flag (every spelling, plus PikeVM / no_opt / [^\\p{}] in the thorough tier). Property escapes as class members: random pairs of sets in [\\p\\p], [^\\p\\p], [\\P\\p], [^\\P\\p], [^\\P a-z], [a-z\\P], [^\\P\\P] under u and v, and [\\p&&\\p], [\\p--\\p], [^\\P&&\\p] under v, swept over all scalar values against set algebra on the export. ~8.6k names and Name=Value forms outside the ES tables (UCD properties ES does not list, Is/In prefixes, case/space/underscore variants, gc values under Script=...) and malformed or misplaced escapes must be rejected. Properties of strings: two-sided membership of 8.8k candidate strings (every string regress holds + all keycaps, 676 regional-indicator pairs, every Emoji_Modifier_Base x 5 modifiers, tag sequences, every emoji with/without U+FE0F, ZWJ shapes) against V8's verdicts; longest-first matching. Non-trivial = set neither empty nor full / a string that is a member.",
+        "EXHAUSTIVE: for every property expression ECMAScript admits (1714 spellings of 367 distinct sets: binary properties, General_Category incl. bare values, Script, Script_Extensions, every alias), /(?:\\p{X})+/ under u and under v is run over a haystack holding all 1,112,064 scalar values and the matched set must equal the Unicode 17 set (oracle: V8/ICU 78 export in /verif/oracle, cross-checked against regex-syntax and std); \\P once per distinct set and flag (every spelling in the thorough tier); the PikeVM once per distinct set (thorough: every spelling, plus no_opt and [^\\p{}]). Property escapes as class members: random pairs of sets in [\\p\\p], [^\\p\\p], [\\P\\p], [^\\P\\p], [^\\P a-z], [a-z\\P], [^\\P\\P] under u and v, and [\\p&&\\p], [\\p--\\p], [^\\P&&\\p] under v, swept over all scalar values against set algebra on the export. ~8.6k names and Name=Value forms outside the ES tables (UCD properties ES does not list, Is/In prefixes, case/space/underscore variants, gc values under Script=...) and malformed or misplaced escapes must be rejected. Properties of strings: two-sided membership of 8.8k candidate strings (every string regress holds + all keycaps, 676 regional-indicator pairs, every Emoji_Modifier_Base x 5 modifiers, tag sequences, every emoji with/without U+FE0F, ZWJ shapes) against V8's verdicts; longest-first matching. Non-trivial = set neither empty nor full / a string that is a member.",
         &["oracle data exported once from V8 11.3 / ICU 78.2 (Unicode 17.0) by oracle/export_v8.js and export_strings_v8.js; SHA-256 in oracle/PROVENANCE.json", "a ZWJ sequence present in Unicode 17 but absent from both regress and the candidate generator cannot be noticed; a valid alias absent from regress, regex-syntax, the spec tables and the candidate list cannot be noticed"],
     )
 }
